@@ -72,6 +72,8 @@ def deep(a):
                         found[k] = (C.describe(tr, line, cl), {"trace": tr, "line": line})
         print("deep seed %d: %d inputs, %d candidate keys so far" % (seed, ninputs, len(found)))
         sys.stdout.flush()
+    if a.dump:
+        json.dump(sorted(found), open(a.dump, "w"), indent=0)
     merge("C17", found, a.write)
 
 
@@ -104,6 +106,7 @@ def main():
     ap.add_argument("--seeds", type=int, nargs="+", default=[0])
     ap.add_argument("--tier", default="quick")
     ap.add_argument("--write", action="store_true")
+    ap.add_argument("--dump", default=None, help="write the list of observed keys to this JSON file (used to prune stale entries)")
     ap.add_argument("--deep", type=int, default=0,
                     help="C17 only: decode+render discovery with N random fillings per spec (no TLC: clauses are "
                          "mimicked here only to NAME candidate keys; the check itself stays TLC-judged)")
@@ -135,6 +138,8 @@ def main():
         print("seed %d: %d keys, %d new (total %d), evaluations %d, drive %ss validate %ss" % (seed, len(seen), len(new), len(found), ctx.evaluations, ctx.extra.get("wall_drive_s"), ctx.extra.get("wall_validate_s")))
         print("   ", dict((k, v) for k, v in ctx.extra.items() if k.startswith("wall_")), [(r["kind"], r["wall_s"]) for r in ctx.tlc_runs if not r["kind"].startswith("T:")])
         sys.stdout.flush()
+    if a.dump:
+        json.dump(sorted(found), open(a.dump, "w"), indent=0)
     path = os.path.join(tlc.VERIF, "known_findings.d", a.pid + ".json")
     old = {"findings": []}
     if os.path.exists(path):
